@@ -836,6 +836,11 @@ class Distributions(object):
         # Determine origin [row, col].
         if np.ndim(self.origin) == 1:  # explicit numbers
             row, col = self.origin
+            # (Python integers: NumPy's fixed-width ones overflow below)
+            if isinstance(row, np.integer):
+                row = int(row)
+            if isinstance(col, np.integer):
+                col = int(col)
             # wrap negative coordinates
             if row < 0:
                 row += height
